@@ -4,6 +4,7 @@ mod c10;
 mod c12;
 mod c13;
 mod c14;
+mod c15;
 mod c18;
 mod c19;
 mod pool;
@@ -22,6 +23,7 @@ fn main() {
     match (args.prop.as_str(), mode.as_str()) {
         ("C13", _) => c13::run(&args, &mut rep),
         ("C14", _) => c14::run(&args, &mut rep),
+        ("C15", _) => c15::run(&args, &mut rep),
         ("C18", _) => c18::run(&args, &mut rep),
         ("C19", _) => c19::run(&args, &mut rep),
         ("C10", _) => c10::run(&args, &mut rep),
